@@ -11,6 +11,10 @@ pub struct LpSpec {
     pub re: String,
     pub lines: Vec<String>,
     pub indent: usize,
+    /// (a, n): lines a..a+n (clamped) form a nested block carrying the SAME pattern; its tag comments are lines
+    /// of the outer block, its lines belong to both
+    #[serde(default)]
+    pub inner: Option<(u8, u8)>,
 }
 
 #[derive(Clone, Debug, Serialize, Deserialize)]
@@ -20,22 +24,49 @@ pub struct LpBatch {
 }
 
 impl LpSpec {
-    pub fn to_block(&self, i: usize) -> RuleBlock {
+    /// the nested block's range of `lines` (not under the trailing-end-tag layout, whose last line carries the outer end tag)
+    fn inner_range(&self, host: Host) -> Option<(usize, usize)> {
+        let (a, n) = self.inner?;
+        if host == Host::ShTrail {
+            return None;
+        }
+        let a = (a as usize).min(self.lines.len());
+        Some((a, (a + n as usize).min(self.lines.len())))
+    }
+    /// the lines of the (outer) block as written: with the nested block's tag comments
+    fn written_lines(&self, host: Host) -> Vec<String> {
+        let Some((a, b)) = self.inner_range(host) else { return self.lines.clone() };
+        let mut v = self.lines[..a].to_vec();
+        v.push(format!("{}{}", host.open(), crate::rules::render_tag(&[("line-pattern".into(), Some(self.re.clone()))])));
+        v.extend_from_slice(&self.lines[a..b]);
+        v.push(format!("{}</block>", host.open()));
+        v.extend_from_slice(&self.lines[b..]);
+        v
+    }
+    pub fn to_block(&self, i: usize, host: Host) -> RuleBlock {
         RuleBlock {
             attrs: vec![("name".into(), Some(format!("b{i}"))), ("line-pattern".into(), Some(self.re.clone()))],
-            lines: self.lines.clone(),
+            lines: self.written_lines(host),
             indent: self.indent,
         }
     }
-    pub fn model(&self) -> Option<(usize, models::Span)> {
-        let lines: Vec<&str> = self.lines.iter().map(String::as_str).collect();
+    pub fn model(&self, host: Host) -> Option<(usize, models::Span)> {
+        let w = self.written_lines(host);
+        let lines: Vec<&str> = w.iter().map(String::as_str).collect();
         models::line_pattern(&lines, models::line_pat(&self.re).expect("pattern from the family"))
+    }
+    /// (index of the nested block's content line 0 within the written lines, its own first failing line)
+    pub fn inner_model(&self, host: Host) -> Option<(usize, Option<(usize, models::Span)>)> {
+        let (a, b) = self.inner_range(host)?;
+        let lines: Vec<&str> = self.lines[a..b].iter().map(String::as_str).collect();
+        Some((a + 1, models::line_pattern(&lines, models::line_pat(&self.re).expect("pattern from the family"))))
     }
 }
 
 pub fn check_batch(b: &LpBatch, probe: &Probe) -> Verdict {
-    let blocks: Vec<RuleBlock> = b.specs.iter().enumerate().map(|(i, s)| s.to_block(i)).collect();
-    let outcomes: Vec<_> = b.specs.iter().map(LpSpec::model).collect();
+    let blocks: Vec<RuleBlock> = b.specs.iter().enumerate().map(|(i, s)| s.to_block(i, b.host)).collect();
+    let outcomes: Vec<_> = b.specs.iter().map(|s| s.model(b.host)).collect();
+    let inner: Vec<_> = b.specs.iter().map(|s| s.inner_model(b.host)).collect();
     probe.evals(b.specs.len() as u64 - 1);
     for (s, o) in b.specs.iter().zip(&outcomes) {
         let pat = models::line_pat(&s.re).unwrap();
@@ -47,16 +78,28 @@ pub fn check_batch(b: &LpBatch, probe: &Probe) -> Verdict {
             probe.nontrivial_sub(s);
         }
         probe.class(if o.is_some() { "some-line-fails" } else { "all-lines-match" });
+        if let Some((at, io)) = s.inner_model(b.host) {
+            probe.class("nested-block-with-the-same-pattern");
+            if let (Some((oi, _)), Some((ii, _))) = (o, io)
+                && *oi == at + ii
+            {
+                probe.class("nested:outer-and-inner-designate-the-same-line");
+            }
+        }
     }
     probe.sample(|| {
         let s = &b.specs[b.specs.len() / 2];
-        json!({"host": format!("{:?}", b.host), "batch_size": b.specs.len(), "one_block": s, "model_first_failing": format!("{:?}", s.model())})
+        json!({"host": format!("{:?}", b.host), "batch_size": b.specs.len(), "one_block": s, "model_first_failing": format!("{:?}", s.model(b.host))})
     });
     let exp = |i: usize, pos: &crate::rules::BlockPos| -> Vec<ExpDiag> {
-        match &outcomes[i] {
-            Some((idx, span)) => vec![ExpDiag::key("line-pattern", pos, *idx, *span)],
-            None => vec![],
+        let mut v = vec![];
+        if let Some((idx, span)) = &outcomes[i] {
+            v.push(ExpDiag::key("line-pattern", pos, *idx, *span));
         }
+        if let Some((at, Some((idx, span)))) = &inner[i] {
+            v.push(ExpDiag::key("line-pattern", pos, at + idx, *span));
+        }
+        v
     };
     let reduce = |i: usize| serde_json::to_value(LpBatch { host: b.host, specs: vec![b.specs[i].clone()] }).unwrap();
     super::linerules::check_rule_batch("C08", b.host, &blocks, &exp, probe, &reduce)
@@ -72,13 +115,13 @@ pub fn enumerated(max_len: usize, batch: usize) -> Vec<LpBatch> {
     for len in 0..=max_len {
         for seq in super::c06::sequences(ALPHA, len).into_iter().filter(|s| s.len() == len) {
             for p in models::LINE_PATS.iter().filter(|p| !EDGE_BLANK.contains(&p.re)) {
-                specs.push(LpSpec { re: p.re.to_string(), lines: seq.clone(), indent: 0 });
+                specs.push(LpSpec { re: p.re.to_string(), lines: seq.clone(), indent: 0, inner: None });
             }
         }
         // patterns with a significant blank at an edge, over lines that differ in exactly that blank
         for seq in super::c06::sequences(ALPHA_EDGE, len).into_iter().filter(|s| s.len() == len) {
             for re in EDGE_BLANK {
-                specs.push(LpSpec { re: re.to_string(), lines: seq.clone(), indent: 0 });
+                specs.push(LpSpec { re: re.to_string(), lines: seq.clone(), indent: 0, inner: None });
             }
         }
     }
@@ -92,11 +135,14 @@ fn long_spec() -> BoxedStrategy<LpSpec> {
         1 => Just(String::new()),
         1 => Just("   ".to_string()),
     ];
-    (0..models::LINE_PATS.len(), proptest::collection::vec((line, 0usize..4, 0usize..3), 5..150), 0usize..3)
-        .prop_map(|(pi, ls, indent)| LpSpec {
+    // (a third of the blocks hold a nested block with the same pattern; `[0-9]`, ` = ` and `\b` accept its start-tag
+    // comment — digits / the quoted pattern / word characters —, so the outer block reads on into the shared lines)
+    (prop_oneof![2 => 0..models::LINE_PATS.len(), 1 => Just(1usize), 1 => Just(12usize), 1 => Just(14usize)], proptest::collection::vec((line, 0usize..4, 0usize..3), 5..150), 0usize..3, proptest::option::weighted(0.35, (prop_oneof![1 => Just(0u8), 2 => 0u8..12], 0u8..8)))
+        .prop_map(|(pi, ls, indent, inner)| LpSpec {
             re: models::LINE_PATS[pi].re.to_string(),
             lines: ls.into_iter().map(|(w, l, t)| format!("{}{w}{}", " ".repeat(l), " ".repeat(t))).collect(),
             indent,
+            inner,
         })
         .boxed()
 }
@@ -106,7 +152,7 @@ pub fn random_batch() -> BoxedStrategy<LpBatch> {
 }
 
 pub fn run(run: &mut Run) {
-    run.rule = "layouts: own-line tag comments in LF and CRLF shell files, and shell files whose end-tag comment trails the last content line. enumerated: every line sequence of length 0..k (k=4 quick, 5 thorough) over a 13-line alphabet (matching, non-matching, indented, blank, partially matching lines) x 12 anchored/unanchored patterns with hand-written predicates (5 of them can match the empty string, one is a bare zero-width assertion), plus 3 special patterns (a significant blank at an edge; `^a.b$`) over an 11-line alphabet of lines differing in exactly that blank, or holding a bare carriage return in the middle; random: blocks of 5..150 lines incl. Unicode. Non-trivial block = at least 2 non-blank lines and (matching and failing lines mixed, a blank line, or a padded line); distinct by (batch, block).".into();
+    run.rule = "every rendered file spells `name=value` in one of three ways (`=`, ` = `, ` =`), drawn from its first block. layouts: own-line tag comments in LF and CRLF shell files, and shell files whose end-tag comment trails the last content line. enumerated: every line sequence of length 0..k (k=4 quick, 5 thorough) over a 13-line alphabet (matching, non-matching, indented, blank, partially matching lines) x 12 anchored/unanchored patterns with hand-written predicates (5 of them can match the empty string, one is a bare zero-width assertion), plus 3 special patterns (a significant blank at an edge; `^a.b$`) over an 11-line alphabet of lines differing in exactly that blank, or holding a bare carriage return in the middle; random: blocks of 5..150 lines incl. Unicode, a third of them holding a nested block that carries the same pattern (its tag comments are lines of the outer block, its lines are judged twice; expected: one diagnostic per block, possibly at the same line). Non-trivial block = at least 2 non-blank lines and (matching and failing lines mixed, a blank line, or a padded line); distinct by (batch, block).".into();
     run.assumptions = vec![
         "content lines are shell/ruby words (block discovery itself is C03)".into(),
         "patterns come from a fixed family with hand-written predicates".into(),
